@@ -219,6 +219,16 @@ def ring(ctx, mc):
         ('conjugate', lambda: I.getattr(A, 'conjugate')(), (a1, -a2)),
         ('dot', lambda: I.getattr(A, 'dot')(B), (a1 * b1 - a2 * b2, a1 * b2 + a2 * b1)),
     ]
+    ci = mc.classes.get('Bicomplex')
+    if ci is not None and ci.lookup('__array_ufunc__') is not None:
+        # the class takes over numpy's dispatch: an ndarray on the left of an operator arrives here, not at the reflected
+        # method - the operand order must survive
+        arr = Arr((1,), [c])
+        cases += [
+            ('__array_ufunc__ (ndarray - z)', lambda: I.binop(ast.Sub(), arr, A), (c - a1, -a2)),
+            ('__array_ufunc__ (ndarray + z)', lambda: I.binop(ast.Add(), arr, A), (c + a1, a2)),
+            ('__array_ufunc__ (ndarray * z)', lambda: I.binop(ast.Mult(), arr, A), (c * a1, c * a2)),
+        ]
     for name, thunk, want in cases:
         base = name.split(' ')[0]
         try:
